@@ -147,6 +147,36 @@ ResetVerdict(e, pre, post) ==
   ELSE [id |-> e.id, path |-> "exc:Reset",
         v |-> LET bad == SelectSeq(checks, LAMBDA c : ~c[2]) IN [k \in 1..Len(bad) |-> bad[k][1]]]
 
+\* direct calls of the memory API (C13) and of translate_address (C14/C15).  A DataAbortException
+\* raised by the call is the outcome "dabort": the exception is NOT entered (no take_* call), only the
+\* fault bookkeeping (DFSR/DFAR) has happened.  act = [n, addr, size, val (bytes by significance), priv, iswrite, aligned]
+MemApiVerdict(e, pre, post) ==
+  LET a == e.act
+      x0 == X0(pre)
+      osys == IF Has(e.d, "osys") THEN e.d.osys ELSE <<>>
+      rd == CASE a.n = "MemAGet" -> MemARead(x0, a.addr, a.size, Priv(pre), TRUE)
+              [] a.n = "MemUGet" -> MemURead(x0, a.addr, a.size, Priv(pre))
+              [] a.n = "MemUUnprivGet" -> MemURead(x0, a.addr, a.size, FALSE)
+              [] OTHER -> [x |-> x0, v |-> <<>>]
+      x1 == CASE a.n = "MemASet" -> MemAWrite(x0, a.addr, a.size, Priv(pre), TRUE, a.val)
+              [] a.n = "MemUSet" -> MemUWrite(x0, a.addr, a.size, Priv(pre), a.val)
+              [] a.n = "MemUUnprivSet" -> MemUWrite(x0, a.addr, a.size, FALSE, a.val)
+              [] a.n = "Translate" -> Translate(x0, a.addr, a.priv, a.iswrite, a.size, a.aligned).x
+              [] OTHER -> rd.x
+      isget == a.n \in {"MemAGet", "MemUGet", "MemUUnprivGet"}
+      expout == IF x1.ni # "" THEN "notimpl" ELSE IF x1.ab.t = "dabort" THEN "dabort" ELSE "completed"
+      r == Result(x1.s, expout, TRUE, "memapi:" \o a.n, x1, FALSE, pre)
+      pa == IF a.n = "Translate" /\ Ok(x1) THEN Translate(x0, a.addr, a.priv, a.iswrite, a.size, a.aligned) ELSE [pa |-> Zero, ext |-> 0]
+  IN IF e.out \notin {"completed", "dabort", "notimpl"} THEN [id |-> e.id, v |-> <<"hosterror">>, path |-> r.path]
+     ELSE IF x1.unp THEN [id |-> e.id, v |-> <<>>, path |-> "envelope:unpredictable:" \o a.n]
+     ELSE IF expout = "notimpl" THEN [id |-> e.id, v |-> IF e.out = "notimpl" THEN <<>> ELSE <<"outcome">>, path |-> "notimpl:" \o x1.ni]
+     ELSE [id |-> e.id, path |-> r.path,
+           v |-> (IF e.out # expout THEN <<"outcome">> ELSE <<>>) \o StateDiff(x1.s, post, r) \o
+                 (IF osys # <<>> THEN <<"sys.other">> ELSE <<>>) \o
+                 (IF isget /\ expout = "completed" /\ e.out = "completed" /\ e.res # rd.v THEN <<"value">> ELSE <<>>) \o
+                 (IF a.n = "Translate" /\ expout = "completed" /\ e.out = "completed" /\ (e.res # <<pa.ext, pa.pa>>)
+                  THEN <<"paddress">> ELSE <<>>)]
+
 Verdict(e) ==
   LET pre  == Overlay(BaseState, e.pre)
       post == Overlay(pre, e.d)
@@ -159,6 +189,8 @@ Verdict(e) ==
           \* SPSR: for those only the outcome is compared -- e.full says which)
           [id |-> e.id, path |-> "pair:cond-pass",
            v |-> IF e.out = e.out2 /\ (~e.full \/ e.d = e.d2) THEN <<>> ELSE <<"cond-pass-differs">>]
+     ELSE IF e.act.n \in {"MemAGet", "MemUGet", "MemUUnprivGet", "MemASet", "MemUSet", "MemUUnprivSet", "Translate"}
+          THEN MemApiVerdict(e, pre, post)
      ELSE IF e.act.n \in {"Step", "Exec"} THEN StepVerdict(e, pre, post)
      ELSE IF e.act.n = "Reset" THEN ResetVerdict(e, pre, post)
      ELSE ExcVerdict(e, pre, post)
